@@ -216,7 +216,7 @@ def run_case(case):
                     break
 
     with pipeline.monitor(debump.Debump, "set_dihedral_angle", before=before,
-                          after=after):
+                          after=after), s3.torsion_drive(case, info):
         r = pipeline.run(text, opts)
     if not r.ok:
         res["events"][f"run-failed:{r.exc[0]}"] = 1
@@ -346,6 +346,8 @@ def enumerate_cases(tier, seed):
                                                    "nodebump_noopt"))
     cases += s3.asym_acid_cases()
     cases += s3.tetra_partner_cases("AMBER")
+    cases += s3.torsion_cases("AMBER")
+    cases += s3.alias_cases()
     wfiles = (["1AJJ.pdb", "1BX8.pdb", "cterm_hid.pdb"] if tier == "quick"
               else None)
     cases += s3.window_cases("AMBER", wfiles)
